@@ -1,7 +1,7 @@
 \* oracle enumeration of program family "expr" (quick bounds), INTENDED switches: TLC must pass.
 \* One PROG line (program IR, shape tags, expected rows at the defined points) per program.
 CONSTANTS Family = "expr" Tier = "quick"
-  DivMapped = TRUE SlicesRangeChecked = TRUE LoopIndexRangeChecked = TRUE PartialSubscriptIsRow = TRUE CallFirstOutput = TRUE StepRangeParsed = TRUE IfStmtSequential = TRUE ExploreOptions = FALSE
+  DivMapped = TRUE SlicesRangeChecked = TRUE LoopIndexRangeChecked = TRUE PartialSubscriptIsRow = TRUE CallFirstOutput = TRUE StepRangeParsed = TRUE RangeStopExact = TRUE IfStmtSequential = TRUE ExploreOptions = FALSE
 INIT Init
 NEXT Next
 INVARIANT WellTyped
